@@ -108,6 +108,7 @@ fn legs_base(id: &str) -> Vec<Leg> {
             leg!("games_normal", MIX, w(Profile::Normal, None), 960, 28800, 1500, mk),
             leg!("false_protection_motif_tree", MOTIF, w(Profile::Fight, Some(TREE)), 300, 2400, 60, mk),
             leg!("games_played_on_after_the_result", SMALL, wp(Profile::Normal), 600, 4800, 200, mk),
+            leg!("interference_probe_fight", MIX, wx(Profile::Fight), 200, 1600, 300, mk),
         ],
         "C03" => vec![
             leg!("games_normal", MIX_LONGSETUP, w(Profile::Normal, None), 10000, 300000, 1500, mk),
@@ -143,6 +144,7 @@ fn legs_base(id: &str) -> Vec<Leg> {
             leg!("false_protection_motif_tree", MOTIF, w(Profile::Fight, Some(TREE)), 300, 2400, 60, mk),
             leg!("games_played_on_after_the_result", SMALL, wp(Profile::Normal), 600, 4800, 200, mk),
             leg!("setup_then_cycle", SETUP_CYCLE, w(Profile::Cycle, None), 200, 1600, 300, mk),
+            leg!("interference_probe_fight", MIX, wx(Profile::Fight), 200, 1600, 300, mk),
         ],
         "C09" => vec![leg!("setup_orders", SETUP_ONLY, w(Profile::Normal, None), 32000, 960000, 40, mk)],
         "C10" => vec![
@@ -150,6 +152,7 @@ fn legs_base(id: &str) -> Vec<Leg> {
             leg!("games_fight_tree", MIX, w(Profile::Fight, Some(TREE_LIGHT)), 90, 2700, 400, mk),
             leg!("false_protection_motif_tree", MOTIF, w(Profile::Fight, Some(TREE)), 150, 1200, 60, mk),
             leg!("games_played_on_after_the_result", SMALL, wp(Profile::Normal), 600, 4800, 200, mk),
+            leg!("interference_probe_fight", MIX, wx(Profile::Fight), 200, 1600, 300, mk),
         ],
         "C11" => vec![
             leg!("games_normal", MIX, w(Profile::Normal, None), 1800, 54000, 800, mk),
@@ -178,6 +181,7 @@ fn legs_base(id: &str) -> Vec<Leg> {
             leg!("games_normal", MIX, w(Profile::Normal, None), 300, 9000, 1000, mk),
             leg!("false_protection_motif_tree", MOTIF, w(Profile::Fight, Some(TREE)), 200, 1600, 60, mk),
             leg!("games_played_on_after_the_result", SMALL, wp(Profile::Normal), 600, 4800, 200, mk),
+            leg!("interference_probe_fight", MIX, wx(Profile::Fight), 200, 1600, 300, mk),
         ],
         "C15" => vec![
             leg!("games_normal", MIX_LONGSETUP, w(Profile::Normal, None), 360, 10800, 800, mk),
@@ -192,6 +196,7 @@ fn legs_base(id: &str) -> Vec<Leg> {
             leg!("injected_history_near_immobile", FROZEN, wi(Profile::Cycle, None), 800, 6400, 600, mk),
             leg!("injected_history_fight", MIX, wi(Profile::Fight, None), 300, 2400, 600, mk),
             leg!("games_played_on_after_the_result", SMALL, wp(Profile::Normal), 600, 4800, 200, mk),
+            leg!("interference_probe_fight", MIX, wx(Profile::Fight), 200, 1600, 300, mk),
         ],
         _ => vec![],
     }
